@@ -239,6 +239,8 @@ class Run:
                 from quara.objects.multinomial_distribution import MultinomialDistribution
 
                 obj = MultinomialDistribution(np.array(r["ps"], dtype=np.float64), tuple(r["shape"]), eps_zero=r.get("eps_zero"))
+            elif k == "oplist":
+                obj = [self.build_entry(i, fresh_cache, live) for i in r["ids"]]
             elif k == "setq":
                 from quara.objects.qoperations import SetQOperations
 
@@ -283,6 +285,8 @@ class Run:
                 snap[i] = digest([np.asarray(b.toarray() if sparse.issparse(b) else b) for b in obj.basis])
             elif k == "setq":
                 snap[i] = digest(_setq_view(obj))
+            elif k == "oplist":
+                snap[i] = digest([W.snapshot_qop(x) for x in obj])
         return snap
 
     def add_to_pool(self, recipe, live_obj):
@@ -368,7 +372,27 @@ class Run:
             keep = copy.deepcopy(arr)
             out = getattr(mod, st["name"])(c, arr)
             return {"out": out, "arg_after": arr, "arg_before": keep}
+        if op == "util":
+            import quara.utils.matrix_util as mu
+
+            arr = np.array(st["arr"])
+            keep = arr.copy()
+            name = st["name"]
+            if name in ("truncate_and_normalize", "truncate_imaginary_part", "truncate_computational_fluctuation", "replace_prob_dist"):
+                out = getattr(mu, name)(arr, st["eps"]) if st.get("eps") is not None else getattr(mu, name)(arr)
+            elif name == "truncate_hs":
+                out = mu.truncate_hs(arr, eps_truncate_imaginary_part=st.get("eps"))
+            elif name in ("is_real", "is_symmetric", "is_unitary", "is_hermitian", "is_positive_semidefinite", "calc_left_inv", "flatten"):
+                out = getattr(mu, name)(arr)
+            elif name == "calc_covariance_mat":
+                out = mu.calc_covariance_mat(arr, st["n"])
+            else:
+                raise ValueError(name)
+            return {"out": out, "arg_after": arr, "arg_before": keep}
         if op == "compose":
+            if st.get("as_list") is not None:
+                lst = get(st["as_list"])  # one list object handed over as the only argument, and kept by the caller
+                return operators.compose_qoperations(lst)
             return operators.compose_qoperations(*[get(i) for i in st["ids"]])
         if op == "tensor":
             return operators.tensor_product(*[get(i) for i in st["ids"]])
@@ -602,7 +626,7 @@ class Run:
                 self.track_probes(sub, {"op": sub["op"], "name": None, "kind": None})
             sig = dict(sig, name="+".join(sub["op"] for sub in subs))
         # operands must exist
-        for key in ("on", "csys", "estimator", "tomo", "dataset", "loss", "algo", "sequence", "obj", "basis", "loss_option_id", "algo_option_id"):
+        for key in ("on", "csys", "estimator", "tomo", "dataset", "loss", "algo", "sequence", "obj", "basis", "loss_option_id", "algo_option_id", "as_list"):
             if key in st and st[key] is not None and not (0 <= st[key] < len(self.pool)):
                 return  # shrunk record: operand disappeared -> no-op
         for i in st.get("ids", []):
@@ -610,7 +634,7 @@ class Run:
                 return
         # make sure the live operands exist before the snapshot
         live_get = lambda i: self.build_entry(i, None, True)
-        for key in ("on", "csys", "estimator", "tomo", "dataset", "loss", "algo", "sequence", "obj", "basis", "loss_option_id", "algo_option_id"):
+        for key in ("on", "csys", "estimator", "tomo", "dataset", "loss", "algo", "sequence", "obj", "basis", "loss_option_id", "algo_option_id", "as_list"):
             if key in st and st[key] is not None:
                 live_get(st[key])
         for i in st.get("ids", []):
@@ -691,7 +715,7 @@ class Run:
                 raise Violation("O3_copy_independence", f"step {idx}: editing a copy changed the original or a sibling copy, or the copy differs from the original: {out_live}", {"step": idx, "st": to_jsonable(st), "result": out_live}, sig)
         # ---- results that are quara objects join the pool (with the value the fresh world produced)
         if isinstance(out_ref, QOperation) and type(out_ref).__name__.lower() in QOP_KINDS and op in ("m", "compose", "derive"):
-            src = st["on"] if op in ("m", "derive") else st["ids"][0]
+            src = st["on"] if op in ("m", "derive") else (st["ids"][0] if st.get("as_list") is None else self.pool[st["as_list"]]["ids"][0])
             csys_id = self.pool[src]["csys"]
             if out_live.composite_system is self.live.get(csys_id):
                 self.last_result_id = None
@@ -726,7 +750,8 @@ class Run:
             getattr(obj, st["name"])()
         after = self.snapshot_all()
         self.bump("oracle_checks", "O1")
-        holders = {j for j, r in enumerate(self.pool) if (r["kind"] == "setq" and any(i in (r.get(k) or []) for k in ("states", "povms", "gates", "mprocesses"))) or (r["kind"] == "tomo" and i in r["testers"])}
+        holders = {j for j, r in enumerate(self.pool) if (r["kind"] == "setq" and any(i in (r.get(k) or []) for k in ("states", "povms", "gates", "mprocesses"))) or (r["kind"] == "tomo" and i in r["testers"])
+                   or (r["kind"] == "oplist" and i in r["ids"])}
         for j, d in before.items():
             if j != i and j not in holders and after.get(j) != d:
                 raise Violation("O1_operand_immutability", f"step {idx} ({st['name']} on object {i}) changed pool object {j} ({self.pool[j]['kind']})", {"step": idx, "st": to_jsonable(st), "object": j}, dict(sig, changed=self.pool[j]["kind"]))
@@ -903,7 +928,7 @@ class Generator:
         self.w = {
             "m": 6, "with_var": rngc.choice([1, 3]), "modfunc": rngc.choice([1, 3]), "compose": 2, "tensor": rngc.choice([0.3, 1]), "cache": 0 if self.fault_free else rngc.choice([2, 5, 8]),
             "flip": 0 if self.fault_free else rngc.choice([0, 0.5, 1.5]), "estimate": rngc.choice([0.5, 2, 4]), "loss_eval": rngc.choice([0.5, 2]), "basis_write": 0.4, "copy_edit": 0.7, "rerun": 1.0, "dataset": 0.8,
-            "mdist": 0.8, "tomo_m": 1.5, "basis_q": 0.8, "csys_q": 0.6, "chain": 0.7, "derive": 1.2, "setq": 0.8,
+            "mdist": 0.8, "tomo_m": 1.5, "basis_q": 0.8, "csys_q": 0.6, "chain": 0.7, "derive": 1.2, "setq": 0.8, "util": 0.8,
         }
         self.focus = "general" if self.fault_free else rngc.choice(["general", "general", "cache", "cache", "estimation", "estimation", "projection", "tolerance"])
         if opts.get("focus"):
@@ -977,6 +1002,7 @@ class Generator:
         used = {t for r in self.pool if r["kind"] == "tomo" for t in r["testers"]}
         # ... and members of a set of operations stay as they are (zeroing a member legitimately changes the set)
         used |= {m for r in self.pool if r["kind"] == "setq" for key in ("states", "povms", "gates", "mprocesses") for m in (r.get(key) or [])}
+        used |= {m for r in self.pool if r["kind"] == "oplist" for m in r["ids"]}
         cands = [j for j, r in enumerate(self.pool) if r["kind"] in QOP_KINDS and j not in used]
         if not cands:
             return None
@@ -1009,7 +1035,7 @@ class Generator:
         if name == "convert_to_comp_basis" and rng.random() < 0.6:
             st["kwargs"] = {"mode": rng.choice(["row_major", "column_major"])}
         if name == "calc_proj_physical" and rng.random() < 0.5:
-            st["kwargs"] = {"max_iteration": rng.choice([1, 3, 50]), "is_iteration_history": rng.random() < 0.5}
+            st["kwargs"] = {"max_iteration": rng.choice([0, 1, 3, 50]), "is_iteration_history": rng.random() < 0.5}
         return st
 
     def g_with_var(self):
@@ -1086,7 +1112,44 @@ class Generator:
             shapes.append(lambda: [rng.choice(M), rng.choice(M)])
         if not shapes:
             return None
-        return {"op": "compose", "ids": rng.choice(shapes)()}
+        ids = rng.choice(shapes)()
+        if rng.random() < 0.3:
+            # the caller keeps its operations in one list and hands that list over, more than once
+            have = [i for i, r in enumerate(self.pool) if r["kind"] == "oplist"]
+            if have and rng.random() < 0.6:
+                li = rng.choice(have)
+            else:
+                rec = {"kind": "oplist", "ids": ids}
+                self.pool.append(rec)
+                if self.pool0 is not None:
+                    self.pool0.append(rec)
+                li = len(self.pool) - 1
+            st = {"op": "compose", "ids": list(self.pool[li]["ids"]), "as_list": li}
+            return [st, copy.deepcopy(st)] if rng.random() < 0.5 else st
+        return {"op": "compose", "ids": ids}
+
+    def g_util(self):
+        rng = self.rng
+        name = rng.choice(["truncate_and_normalize", "truncate_and_normalize", "truncate_imaginary_part", "truncate_computational_fluctuation", "replace_prob_dist", "truncate_hs",
+                           "is_hermitian", "is_positive_semidefinite", "calc_left_inv", "calc_covariance_mat", "flatten"])
+        st = {"op": "util", "name": name, "eps": rng.choice([None, 1e-8, 1e-3])}
+        if name in ("truncate_and_normalize",):
+            rows, cols = rng.choice([(1, 2), (3, 2), (2, 4)])
+            a = np.array([[rng.choice([0.0, 1e-12, rng.uniform(0.1, 5)]) for _ in range(cols)] for _ in range(rows)])
+            st["arr"] = a if rng.random() < 0.7 else a[0]
+        elif name in ("replace_prob_dist", "calc_covariance_mat"):
+            k = rng.choice([2, 3, 4])
+            w = [rng.choice([0.0, rng.random()]) for _ in range(k)]
+            if sum(w) == 0:
+                w[0] = 1.0
+            st["arr"] = np.array([x / sum(w) for x in w])
+            st["n"] = rng.choice([10, 100])
+        elif name == "truncate_hs":
+            st["arr"] = np.array(ops.rand_gate_hs(rng, True), dtype=np.complex128) + 1e-14j
+        else:
+            m = np.array([[rng.gauss(0, 1) for _ in range(3)] for _ in range(3)])
+            st["arr"] = (m + m.T) if name.startswith("is_") else m + (1e-14j if name.startswith("truncate") else 0)
+        return st
 
     def g_tensor(self):
         rng = self.rng
@@ -1383,7 +1446,7 @@ class Generator:
         return {"op": "copy_edit", "on": rng.choice([j for j, r in enumerate(self.pool) if r["kind"] in QOP_KINDS])}
 
     def g_rerun(self):
-        cands = [s for s in self.history if s["op"] in ("m", "with_var", "modfunc", "compose", "estimate", "loss_eval", "tomo_m", "mdist", "basis_q", "esys_q", "csys_q", "derive", "setq_q")]
+        cands = [s for s in self.history if s["op"] in ("m", "with_var", "modfunc", "compose", "estimate", "loss_eval", "tomo_m", "mdist", "basis_q", "esys_q", "csys_q", "derive", "setq_q", "util")]
         if not cands:
             return None
         return copy.deepcopy(self.rng.choice(cands))
